@@ -1281,7 +1281,8 @@ func (st *Runtime) evalPipeCallExpression(baseExpr reflect.Value, args CallArgs,
 		return reflect.Value{}, nil
 	}
 
-	return returns[0], nil
+	// what a function declared to return interface{} hands back is the value inside, as for variables and fields
+	return indirectEface(returns[0]), nil
 }
 
 func (st *Runtime) evalCommandExpression(node *CommandNode) (reflect.Value, bool) {
